@@ -9,7 +9,7 @@ import sys
 import time
 
 VERIF = os.path.dirname(os.path.dirname(os.path.abspath(__file__)))
-REPO = "/repo"
+REPO = os.environ.get("VERIF_REPO", "/repo")     # overridden only by tools/par_seed_test.sh (isolated copies)
 HARNESS = os.path.join(VERIF, "harness")
 LEAN = os.path.join(VERIF, "lean")
 RVH_DEBUG = os.path.join(HARNESS, "target", "debug", "rvh")
